@@ -163,14 +163,19 @@ def sortKeys (l : List (Bytes × α)) : List (Bytes × α) :=
 
 def userAgent : Bytes := sb ("go-mail v" ++ Generated.version ++ " // https://github.com/wneessen/go-mail")
 
-/-- addDefaultHeader + checkUserAgent: the state a render leaves behind in genHeader -/
-def defaultHeaders (s : MsgState) (e : Entropy) : MsgState :=
-  let s := if (assocGet s.gen (sb "Date")).isSome then s else { s with gen := assocSet s.gen (sb "Date") [e.date] }
-  let s := if (assocGet s.gen (sb "Message-ID")).isSome then s else { s with gen := assocSet s.gen (sb "Message-ID") [e.msgid] }
-  let s := setGenHeader s (sb "MIME-Version") [s.mimever]
-  if s.noDefaultUA then s
-  else if (assocGet s.gen (sb "User-Agent")).isSome || (assocGet s.gen (sb "X-Mailer")).isSome then s
-  else setGenHeader (setGenHeader s (sb "User-Agent") [userAgent]) (sb "X-Mailer") [userAgent]
+/-- addDefaultHeader + checkUserAgent as a function on the generic header list: Date and Message-ID are
+    set once, MIME-Version always, User-Agent / X-Mailer unless one of them is present or disabled -/
+def defaultGen (s : MsgState) (e : Entropy) : List (Bytes × List Bytes) :=
+  let g := s.gen
+  let g := if (assocGet g (sb "Date")).isSome then g else assocSet g (sb "Date") [e.date]
+  let g := if (assocGet g (sb "Message-ID")).isSome then g else assocSet g (sb "Message-ID") [e.msgid]
+  let g := assocSet g (sb "MIME-Version") [encodeString s s.mimever]
+  if s.noDefaultUA then g
+  else if (assocGet g (sb "User-Agent")).isSome || (assocGet g (sb "X-Mailer")).isSome then g
+  else assocSet (assocSet g (sb "User-Agent") [encodeString s userAgent]) (sb "X-Mailer") [encodeString s userAgent]
+
+/-- the state a render leaves behind in genHeader -/
+def defaultHeaders (s : MsgState) (e : Entropy) : MsgState := { s with gen := defaultGen s e }
 
 def mimeSigned : Bytes := sb "signed; protocol=\"application/pkcs7-signature\"; micalg=sha-256"
 
